@@ -27,9 +27,12 @@ Definition validate_raises (strict lenient : dtype -> dtype -> bool) (c : vcase)
     end
   end.
 
-(* API-level strict flag propagation (mlodaAPI._process_features): the flag becomes the option only on typed
-   requested features *)
+(* API-level strict flag propagation (mlodaAPI._process_features, after fix 04e88fc): the per-call flag becomes the group option
+   of EVERY requested feature (the validator still checks typed features only; the option is what is handed on to the input
+   features).  propagate_strict_old: the code before the fix attached it to typed requested features only. *)
 Definition propagate_strict (api_flag : bool) (declared : option dtype) (s : strict_opt) : strict_opt :=
+  if api_flag then STrue else s.
+Definition propagate_strict_old (api_flag : bool) (declared : option dtype) (s : strict_opt) : strict_opt :=
   if api_flag then match declared with Some _ => STrue | None => s end else s.
 
 (* Engine.set_data_type: request type vs feature-group rule.  inl = resulting type, inr = rejected *)
